@@ -34,6 +34,7 @@ type VerifSessionView struct {
 	Count     uint64
 	Closed    bool
 	Hidden    bool
+	Queued    int // messages accepted by the receive loop and not yet read
 }
 
 func (ss *SessionState) verifView() VerifSessionView {
@@ -43,6 +44,9 @@ func (ss *SessionState) verifView() VerifSessionView {
 		Count: ss.count, Closed: ss.handleState == closed, Hidden: ss.isHiddenHS}
 	if ss.remoteAddr != nil {
 		v.Remote = ss.remoteAddr.String()
+	}
+	if ss.handle != nil {
+		v.Queued = len(ss.handle.recv.C)
 	}
 	return v
 }
@@ -56,4 +60,15 @@ func (c *Client) VerifSession() (VerifSessionView, bool) {
 		return VerifSessionView{}, false
 	}
 	return c.ss.verifView(), true
+}
+
+// VerifSessionAny is VerifSession that also answers for a closing or closed client.
+func (c *Client) VerifSessionAny() (VerifSessionView, bool) {
+	switch c.state.Load() {
+	case clientStateOpen, clientStateClosing, clientStateClosed:
+		if c.ss != nil {
+			return c.ss.verifView(), true
+		}
+	}
+	return VerifSessionView{}, false
 }
